@@ -20,7 +20,7 @@ KIND = "async"
 
 
 def cases(rng, tier):
-    for _ in range(fw.tier_scale(tier, 3000, 30000)):
+    for _ in range(fw.tier_scale(tier, 4000, 120000)):
         yield base.gen_case(rng, KIND, tier)
 
 
